@@ -258,6 +258,14 @@ func runHistory(c *core.Case) {
 		if o.PeerOmitsTo && o.S2S {
 			c.Count("s2s_sessions_whose_peer_header_omits_to", 1)
 		}
+	} else if c.Index%6 == 2 {
+		// a session the library RECEIVED, negotiated by its default negotiator:
+		// both addresses are learnt from the peer's header
+		o = sess.Opts{ReceiveDefault: true, S2S: (c.Index/6)%2 == 0}
+		c.Count("received_sessions_from_the_default_negotiator", 1)
+		if o.S2S {
+			c.Count("received_s2s_sessions_from_the_default_negotiator", 1)
+		}
 	} else if c.Index%6 == 4 {
 		// a stream with another content namespace (XEP-0114 component)
 		o = sess.Opts{Component: true, Local: "comp.example.net", Remote: "example.net"}
@@ -421,7 +429,7 @@ func runHistory(c *core.Case) {
 	var wg sync.WaitGroup
 	recs := make([][]*opRec, nActors)
 	for a := 0; a < nActors; a++ {
-		g := &gen{r: core.NewRand(core.SubSeed(c.Seed, "C05", c.Index, fmt.Sprintf("actor%d", a))), streamNS: streamNS, s2s: o.S2S, s: p.S}
+		g := &gen{r: core.NewRand(core.SubSeed(c.Seed, "C05", c.Index, fmt.Sprintf("actor%d", a))), streamNS: streamNS, s2s: o.S2S, s: p.S, c: c}
 		wg.Add(1)
 		go func(a int, g *gen) {
 			defer wg.Done()
@@ -527,7 +535,7 @@ func runHistory(c *core.Case) {
 		}
 		prec.wireAtRet, prec.TRet = int64(p.Lib.WrittenLen()), clock.Add(1)
 		fin = append(fin, prec)
-		g := &gen{r: fr, streamNS: streamNS, s2s: o.S2S, s: p.S}
+		g := &gen{r: fr, streamNS: streamNS, s2s: o.S2S, s: p.S, c: c}
 		for n := 1; n <= 3; n++ {
 			marker := fmt.Sprintf("fin-%d", n)
 			kind := kinds[fr.Intn(3)]
@@ -660,6 +668,9 @@ func runHistory(c *core.Case) {
 		i := sort.SearchInts(marks, int(el.Offset)+1)
 		if i < len(marks) && int64(marks[i]) < el.End {
 			multiWrite++
+		}
+		if el.Name.Space == sess.NSStream && el.Name.Local == "features" && o.ReceiveDefault {
+			continue // the advertisement of the received session's negotiation
 		}
 		switch len(ms) {
 		case 0:
@@ -817,7 +828,7 @@ func trunc(s string) string {
 
 // Prop returns the C05 check.
 func Prop() *core.Prop {
-	req := []string{"histories", "histories_with_transmits_racing_close", "C10/transmits_overlapping_a_close", "sessions_from_the_default_negotiator", "s2s_sessions_whose_peer_header_omits_to", "histories_with_partial_failure", "partial:Send:reader-fails", "partial:SendElement:payload-reader-fails", "partial:Encode:xmlstream.Marshaler-fails", "partial:Encode:xmlstream.WriterTo-fails", "partial:TokenWriter:closed-mid-element", "partial:Send:reader-ends-with-element-open", "partial:SendElement:payload-ends-with-element-open", "partial:Send:context-ends-while-write-blocked", "component_streams", "invalid_argument_calls", "incoming_stanzas_nobody_answers", "handler_replies_after_refused_writes", "handler_replies_abandoned_in_mid_element", "handlers_that_abandon_another_element_and_leave_the_reply_to_the_session", "calls_overlapping_another_actor", "elements_spanning_several_writes", "auto_replies", "wire_stanzas"}
+	req := []string{"histories", "histories_with_transmits_racing_close", "C10/transmits_overlapping_a_close", "sessions_from_the_default_negotiator", "s2s_sessions_whose_peer_header_omits_to", "received_sessions_from_the_default_negotiator", "received_s2s_sessions_from_the_default_negotiator", "stanzas_in_raw_token_form_unresolved_name_plus_xmlns_attribute", "histories_with_partial_failure", "partial:Send:reader-fails", "partial:SendElement:payload-reader-fails", "partial:Encode:xmlstream.Marshaler-fails", "partial:Encode:xmlstream.WriterTo-fails", "partial:TokenWriter:closed-mid-element", "partial:Send:reader-ends-with-element-open", "partial:SendElement:payload-ends-with-element-open", "partial:Send:context-ends-while-write-blocked", "component_streams", "invalid_argument_calls", "incoming_stanzas_nobody_answers", "handler_replies_after_refused_writes", "handler_replies_abandoned_in_mid_element", "handlers_that_abandon_another_element_and_leave_the_reply_to_the_session", "calls_overlapping_another_actor", "elements_spanning_several_writes", "auto_replies", "wire_stanzas"}
 	for _, e := range []string{"Send", "SendElement", "Encode", "EncodeElement", "TokenWriter", "HandlerReply",
 		"SendIQ", "SendIQElement", "EncodeIQ", "EncodeIQElement", "UnmarshalIQ", "UnmarshalIQElement", "IterIQ", "IterIQElement",
 		"SendMessage", "SendMessageElement", "EncodeMessage", "EncodeMessageElement",
